@@ -81,6 +81,12 @@ Theorem C12_valid_encode_all : forall cs r,
 Proof. exact valid_encode_all. Qed.
 Print Assumptions C12_valid_encode_all.
 
+(* well-formedness (valid_utf8) is exactly "a concatenation of encodings of Unicode scalar values" *)
+Theorem C12_valid_utf8_iff_encoding : forall d, wf_bytes d ->
+  (valid_utf8 d = true <-> exists cs, forallb is_scalar_value cs = true /\ d = encode_all cs).
+Proof. exact valid_utf8_iff_encoding. Qed.
+Print Assumptions C12_valid_utf8_iff_encoding.
+
 (* ---- table facts: complete finite check over the 256 entries regenerated from data.rs ---- *)
 Theorem C12_table_scalar_values : forall b, b < 256 -> is_scalar_value (w1252 b) = true.
 Proof. exact w1252_scalar. Qed.
